@@ -62,7 +62,7 @@ Wraps == {"none", "gzip", "gzipTrunc", "gzipBadMagic", "gzipTwice", "concat", "e
 \* legacy documents: base document name x mutation class x position
 LegacyDocs == {"heap", "heap_v2", "heapprofile", "growth", "gocount", "contention", "mutex", "threadz", "cpu64le", "cpu32be", "javaheap", "javacont"}
 LegacyMuts == {"none", "numNonNumeric", "numHuge", "numNegative", "numEmpty", "dropAt", "dropLine", "dupLine", "truncFrac", "garbageLine", "crlf",
-               "dropMapHeader", "mapGarbage", "mapAnonHuge", "mapEmpty", "addrOverflow", "nstkHuge", "noEndMarker", "wordSwap"}
+               "dropMapHeader", "mapGarbage", "mapAnonHuge", "mapEmpty", "mapOddName", "addrOverflow", "nstkHuge", "noEndMarker", "wordSwap"}
 Positions == IF Tier = "thorough" THEN 0..11 ELSE 0..3
 
 VARIABLES pc, muts, wrap, legacy
